@@ -30,12 +30,49 @@ def run(ctx):
     ctx.step(iters, ctx)
     ctx.step(construct, ctx)
     ctx.step(atomic_ops_rule, ctx)
+    ctx.step(link_rule, ctx)
     # a traversal is only protected once its handle is in the log: every way of reaching the list through a handle registers
     ctx.step(c05.register, ctx, "C12.register", True, False)
     from . import c13
     ctx.step(c13.uaf, ctx, "C12.uaf", [f for f in ctx.fb.functions(rec=RCU)], floor=10)
     ctx.step(common.atomic_floors, ctx, "C12.orders", [RCU, NODE], floor=20, files=["rcu_list.hpp"])
     ctx.step(common.witnesses, ctx, "C12.witness", ["C12"])
+
+
+def link_rule(ctx, rid="C12.link"):
+    """whatever inserts a node keeps the list doubly linked: on every path through the linking code the new node is
+    stored exactly once into a forward slot (somebody's next, or m_head) and exactly once into a backward slot
+    (somebody's back, or m_tail).  A path that misses the backward store leaves a neighbour pointing past the new node:
+    the next erase of that neighbour cuts the new node out of the list."""
+    ctx.rule(rid, "every insertion stores the new node into one forward and one backward slot on each path", floor=8)
+    fb = ctx.fb
+    for f0 in fb.functions(rec=RCU):
+        if f0.kind in ("ctor", "dtor") or forwards_to_sibling(fb, f0) is not None:
+            continue
+        if not any(st["k"] == "CallExpr" and callee_fq(st) == "gmlc::libguarded::detail::allocate_unique" for st in f0.stmts.values()):
+            continue
+        ib = insertion_body(f0)
+        if ib is None:
+            ctx.unknown("%s: %s: cannot find the node %s allocates" % (rid, f0.where, f0.name))
+            continue
+        f, NN, mk, call_pos = ib
+        try:
+            ps = all_paths(f)
+        except TooManyPaths:
+            ctx.broken("too many paths in " + f.label)
+        names = node_names(f, NN)
+        for pe in ps:
+            ev = pe.events
+            mine = [e for e in ev if e["k"] in ("astore", "armw") and e.get("val") in names and
+                    not any((e["obj"] or "").startswith(n) for n in names)]
+            if not mine:
+                continue
+            fw = [e for e in mine if e["fld"] in ((RCU, "m_head"), (NODE, "next"))]
+            bw = [e for e in mine if e["fld"] in ((RCU, "m_tail"), (NODE, "back"))]
+            ok = len(fw) == 1 and len(bw) == 1
+            ctx.ob(rid, ok, f.loc(mine[0]["st"]), "%s links the new node forward and backward exactly once" % f0.name,
+                   "" if ok else "a path stores the new node into %d forward slot(s) %s and %d backward slot(s) %s" % (
+                       len(fw), [e["obj"] for e in fw], len(bw), [e["obj"] for e in bw]), fn=f.label, inst=f.qname)
 
 
 def atomic_ops_rule(ctx, rid="C12.atomic"):
